@@ -361,6 +361,36 @@ theorem C12_metadata_from_source (a b : Obj K) (c : Scal K) (sub : Bool) :
    (Tables.row_views a).1, (Tables.row_views a).2.1, (Tables.row_views a).2.2.1, (Tables.row_views a).2.2.2.1,
    (Tables.row_views a).2.2.2.2⟩
 
+/-- **`Diagonal` closed forms: the arguments of the rebuilt `Diagonal` are those of the source.**  `+ − · / @` rebuild
+    on `self.input_shape` (`other.input_shape` for `@`) WITHOUT `input_dtype` (so the dtype of the new diagonal is
+    declared), `conj` / `gram_op` forward `self.input_dtype` — read from the source table and equal to what the model's
+    `rediag` receives (seeded change `C12-m3`/`C12-p3`, "conj drops input_dtype", now breaks the generated obligation). -/
+theorem C12_diagonal_args_from_source (cfg : Cfg) (sub : Bool) (a b : Obj K) (c : Scal K) :
+    (∃ row, Tables.ctorRow Tables.model "diag" (if sub then "__sub__" else "__add__") 0 = some row
+      ∧ Tables.shArg a.md b.md row.inSh = some a.md.inShape ∧ Tables.dtArg a.md row.inDt = some none
+      ∧ diagAddSub cfg sub a b = (if a.diagonal.2.1 = b.diagonal.2.1 then
+          rediag cfg (fun i => pm sub (a.diagonal.1.get i) (b.diagonal.1.get i)) a.diagonal.2.1
+            (resultType a.diagonal.2.2 b.diagonal.2.2) a.md.inShape none else .error .shape))
+    ∧ (∃ row, Tables.ctorRow Tables.model "diag" "__mul__" 0 = some row
+      ∧ Tables.shArg a.md b.md row.inSh = some a.md.inShape ∧ Tables.dtArg a.md row.inDt = some none
+      ∧ (c.kind.isScalarEquiv = true → diagMul cfg a c =
+          rediag cfg (fun i => a.diagonal.1.get i * c.val) a.diagonal.2.1 (resultTypeS a.diagonal.2.2 c.kind.sk) a.md.inShape none))
+    ∧ (∃ row, Tables.ctorRow Tables.model "diag" "__truediv__" 0 = some row
+      ∧ Tables.shArg a.md b.md row.inSh = some a.md.inShape ∧ Tables.dtArg a.md row.inDt = some none
+      ∧ (c.kind.isScalarEquiv = true → diagDiv cfg a c =
+          rediag cfg (fun i => a.diagonal.1.get i / c.val) a.diagonal.2.1 (resultTypeS a.diagonal.2.2 c.kind.sk) a.md.inShape none))
+    ∧ (∃ row, Tables.ctorRow Tables.model "diag" "conj" 0 = some row
+      ∧ Tables.shArg a.md b.md row.inSh = some a.md.inShape ∧ Tables.dtArg a.md row.inDt = some (some a.md.inDt)
+      ∧ (a.md.cls = .diag → diagConj cfg a =
+          rediag cfg (fun i => conj (a.diagonal.1.get i)) a.diagonal.2.1 a.diagonal.2.2 a.md.inShape (some a.md.inDt)))
+    ∧ (∃ row, Tables.ctorRow Tables.model "diag" "gram_op" 0 = some row
+      ∧ Tables.shArg a.md b.md row.inSh = some a.md.inShape ∧ Tables.dtArg a.md row.inDt = some (some a.md.inDt))
+    ∧ (∃ row, Tables.ctorRow Tables.model "diag" "__matmul__" 0 = some row
+      ∧ Tables.shArg a.md b.md row.inSh = some b.md.inShape ∧ Tables.dtArg a.md row.inDt = some none)
+    ∧ (∃ row, Tables.ctorRow Tables.model "scaledId" "__matmul__" 1 = some row
+      ∧ Tables.shArg a.md b.md row.inSh = some b.md.inShape ∧ Tables.dtArg a.md row.inDt = some none) :=
+  Tables.diag_rows_used cfg sub a b c
+
 /-- `jax.numpy.result_type` on scico's four dtypes is the join of a lattice: commutative,
     associative, idempotent, with `float32` as bottom — so the declared dtype of a sum does not
     depend on operand order or grouping. -/
